@@ -2,5 +2,5 @@
    the model planners, the reference semantics and its boolean spec oracle) for volume runs.
    Same directives as ExtractLogql.v: ExtrOcamlBasic + ExtrOcamlString only, no Extract Constant. *)
 From Coq Require Import Extraction ExtrOcamlBasic ExtrOcamlString.
-From Qryn Require Import lib.Strs model.Sql model.SqlRender model.Logql model.LogqlPlan model.SqlEval model.LogqlSem model.LogqlSemCheck.
-Extraction "c07sem.ml" check_case empty_select.
+From Qryn Require Import lib.Strs model.Sql model.SqlRender model.Logql model.LogqlRegexp model.LogqlPlan model.SqlEval model.LogqlSem model.LogqlSemCheck.
+Extraction "c07sem.ml" check_case empty_select re_plan.
